@@ -1,9 +1,14 @@
 package memfs
 
-import "os"
+import (
+	"os"
+
+	"github.com/goatcms/goatcore/verifhook"
+)
 
 // copyFile copy a file and return copied file instance
 func copyFile(f *File, newName string) (*File, error) {
+	verifhook.Yield("memfs.copy.file")
 	f.dataMU.RLock()
 	defer f.dataMU.RUnlock()
 	var datacopy = make([]byte, len(f.data))
